@@ -270,7 +270,24 @@ func checkMemfdSeal(c *Check) {
 			if !ok {
 				continue
 			}
-			if !isNilConst(retVal(ret, 0)) {
+			// `return fail(…)`: the results are those of a local helper that returns (nil, error) on every path
+			var viaHelper *ssa.Function
+			if ex, ok := ret.Results[0].(*ssa.Extract); ok {
+				if call, ok := ex.Tuple.(*ssa.Call); ok {
+					if hf := spawnedFn(&call.Call); hf != nil && inModule(hf) && len(hf.Blocks) > 0 {
+						allNil := true
+						for _, hb := range hf.Blocks {
+							if hr, ok := hb.Instrs[len(hb.Instrs)-1].(*ssa.Return); ok && !isNilConst(retVal(hr, 0)) {
+								allNil = false
+							}
+						}
+						if allNil {
+							viaHelper = hf
+						}
+					}
+				}
+			}
+			if viaHelper == nil && !isNilConst(retVal(ret, 0)) {
 				// named results: the value is read from the result slot; an error return stored nil there in this block
 				u, isLoad := ret.Results[0].(*ssa.UnOp)
 				storedNil := false
@@ -296,6 +313,20 @@ func checkMemfdSeal(c *Check) {
 					if nm, _ := calleeOf(ci); strings.HasSuffix(nm, "os.File).Close") {
 						closed = true
 					}
+				}
+			}
+			if viaHelper != nil {
+				// the helper closes the file on every path through it
+				skips, _ := pathQuery{fn: viaHelper, target: isReturn, stop: func(in ssa.Instruction) bool {
+					ci, ok := in.(ssa.CallInstruction)
+					if !ok {
+						return false
+					}
+					nm, _ := calleeOf(ci)
+					return strings.HasSuffix(nm, "os.File).Close")
+				}}.find()
+				if !skips {
+					closed = true
 				}
 			}
 			// or: a deferred function registered before this return closes the file when the function fails
